@@ -177,3 +177,64 @@ def write_evidence(prop, tier, seed, level, coverage, wall, violations, assumpti
     }
     with open(os.path.join(EVID, prop + ".json"), "w") as f:
         json.dump(ev, f, indent=1)
+
+
+def build_asan(bin_name):
+    """Best-effort AddressSanitizer build of a harness binary on the nightly
+    toolchain (thorough tier of C16).  Returns the binary path or None."""
+    env = dict(os.environ, CARGO_NET_OFFLINE="true", RUSTFLAGS="-Zsanitizer=address",
+               CARGO_TARGET_DIR=os.path.join(HARNESS, "target-asan"))
+    try:
+        r = subprocess.run(["cargo", "+nightly", "build", "--offline", "--target", "x86_64-unknown-linux-gnu", "--bin", bin_name],
+                           cwd=HARNESS, env=env, stdout=subprocess.PIPE, stderr=subprocess.STDOUT, text=True, timeout=1200)
+    except Exception:
+        return None
+    if r.returncode != 0:
+        return None
+    src = os.path.join(HARNESS, "target-asan", "x86_64-unknown-linux-gnu", "debug", bin_name)
+    dst = os.path.join(WORK, "bin-asan-" + bin_name)
+    shutil.copy2(src, dst)
+    return dst
+
+
+def run_asan(binary, cpath, ncases):
+    """Run a case file under the ASan build; returns list of (case idx, report line)."""
+    reports = []
+    start = 0
+    env = dict(os.environ, ASAN_OPTIONS="detect_leaks=0:abort_on_error=0:exitcode=66")
+    guard = 0
+    while start < ncases and guard < ncases + 5:
+        guard += 1
+        r = subprocess.run([binary, cpath, "--from", str(start)], stdout=subprocess.PIPE, stderr=subprocess.PIPE, text=True, env=env, timeout=1800)
+        out = r.stdout.splitlines()
+        if r.returncode == 0:
+            break
+        if r.returncode in (3, 4) and out and out[-1].startswith('{"e":"restart"'):
+            start = json.loads(out[-1])["next"]
+            continue
+        last = start
+        for ln in out:
+            if ln.startswith('{"e":"case"') or ln.startswith('{"e":"qcase"'):
+                try:
+                    last = json.loads(ln)["idx"]
+                except Exception:
+                    pass
+        msg = ""
+        for ln in r.stderr.splitlines():
+            if "AddressSanitizer" in ln:
+                msg = ln.strip()[:200]
+                break
+        if msg:
+            reports.append((last, msg))
+        start = last + 1
+    return reports
+
+
+def validate_timers_design(tpath, name):
+    """Trace validation against the design spec of the timers (TimersTrace):
+    returns {lines, ndrift, first}.  Drift is informational."""
+    rc, out = tlc("TimersTrace.tla", "TimersTrace.cfg", "ttrace-" + name, env={"TRACE": tpath}, workers=1, heap="6g")
+    m = re.search(r'<<"DVERDICT", "(.*)">>', out)
+    if not m or "Model checking completed. No error has been found." not in out:
+        raise ToolError("design-level timer trace validation did not complete for %s:\n%s" % (tpath, out[-3000:]))
+    return json.loads(m.group(1).encode().decode("unicode_escape"))
